@@ -1151,6 +1151,12 @@ class SpaceGraph(nx.DiGraph):
         shared_desc = get_shared_desc(subspace, basespace)
         if shared_desc:
             shared_desc = shared_desc.split(".")
+            # One of the names may be a trailing part of the other
+            # (A.B and B): leave a root to each of them
+            excess = len(shared_desc) - (
+                min(len_node(subspace), len_node(basespace)) - 1)
+            if excess > 0:
+                shared_desc = shared_desc[excess:]
         else:
             shared_desc = []
 
